@@ -1082,8 +1082,9 @@ def run(ctx: Check, tree: Tree) -> None:
     from .c18 import check_subs_returns
 
     ctx.section(check_subs_returns, ctx, tree)  # the sum helper class: subs-then-unfold == unfold-then-subs needs the pools substituted, too
-    from .c15 import check_reentrant_new
+    from .c15 import check_reentrant_new, check_reentrant_none_token
 
+    ctx.section(check_reentrant_none_token, ctx, tree)
     ctx.section(check_reentrant_new, ctx, tree)  # "reproduced by rebuilding it from its own arguments" for the array helper classes
     ctx.section(check_precedence, ctx, tree, prefixes=("ampform",))
     ctx.section(check_arity, ctx, tree, classes)
